@@ -20,6 +20,11 @@ Spec: XarrayLabels.tla (on top of MapDenote.tla); model: MC_XarrayLabels.tla.   
    folder in one process - map(inputs A) -> datasets -> map(inputs B, cleanup=True) -> datasets - where B is A with every
    atom renamed (same shapes).  The expectation for B is exported by TLC like any other case (Mode = "file"); both datasets
    of the second run are judged against it (a loader that remembers the first run returns A's coordinates with B's data).
+5. Multi-source axes (Mode = "sources"): the TLA+-defined family of pipelines whose last function zips, along one axis,
+   2-3 sources - root inputs, mapped arrays one and two steps from their roots, a rank-2 mapped array whole or reduced -
+   listed in the MapSpec in EVERY order (root before / after / between mapped arrays, two mapped arrays zipped, a nested
+   root-first zip).  TLC checks XarrayLabels!LawSources and LawSourceOrder (every reordering of a MapSpec's inputs has the
+   same analysis and denotation) on each member and exports each like any other case; the real code is run on every order.
 Python only drives the real code, projects datasets and compares with what TLC printed.
 """
 from __future__ import annotations
@@ -48,8 +53,8 @@ from ..tracekit import parse_prints
 PROPERTY = "C19"
 LEVEL = "model_checking"
 
-LAWS_ALWAYS = "LawOrder LawDimsOK LawCoordsFit LawAccepted LawSwitch LawSingleInAll LawSel"
-LAWS_UNIVERSE = "LawSupported LawSelExact LawOneIndex LawDistinct"
+LAWS_ALWAYS = "LawOrder LawUnion LawDimsOK LawCoordsFit LawAccepted LawSwitch LawSingleInAll LawSel"
+LAWS_UNIVERSE = "LawSupported LawOrderFree LawSelExact LawOneIndex LawDistinct"
 MC_CFG = """SPECIFICATION XSpec
 CONSTANTS MaxSize = {maxsize} MinSize = {minsize} Rich = {rich} Shard = {shard} NShards = {nshards} Mode = "{mode}"
 INVARIANT {invs}
@@ -79,6 +84,19 @@ def export_universe(ctx: Ctx, *, minsize: int, maxsize: int, rich: bool, nshards
             seen.add(key)
             uniq.append(c)
     return uniq
+
+
+def export_sources(ctx: Ctx, *, minsize: int, maxsize: int, rich: bool) -> list[dict]:
+    """The multi-source family of MC_XarrayLabels (Mode = "sources"): every order of 2-3 sources of one axis."""
+    wd = ctx.workdir(f"mc_xarray_sources_{minsize}{maxsize}{int(rich)}")
+    cfg = MC_CFG.format(maxsize=maxsize, minsize=minsize, rich="TRUE" if rich else "FALSE", shard=0, nshards=1, mode="sources",
+                        invs=f"{LAWS_UNIVERSE} {LAWS_ALWAYS} EmitLabels")
+    r = run_tlc("MC_XarrayLabels", cfg, wd, workers=1, allow_violation=False, timeout=3000, heap="3g")
+    ctx.add_tlc(r, f"MC_XarrayLabels multi-source family sizes {minsize}..{maxsize} rich={rich}")
+    cases = [p for t, p in parse_prints(r.prints) if t == "CASE"]
+    if not cases:
+        raise MachineryError("MC_XarrayLabels (sources mode) exported no cases")
+    return cases
 
 
 def export_file_cases(ctx: Ctx, items: list[dict], name: str, *, chunk: int = 250, par: int = 4, count: bool = True) -> dict[int, dict]:
@@ -529,7 +547,9 @@ def run(ctx: Ctx) -> None:
                 "the TLA+-defined universe MC_XarrayLabels (= the C01 universe MC_MapDenote restricted to mapped inputs of rank "
                 "<= 2: producer with 1-2 mapped inputs over axes i,j,k incl. ':', zip / outer product, every output axis order, "
                 "internal axis at every position, optional 2nd output, generator; consumers none/element-wise/partial/full/zip "
-                "with a fresh input) + seeded random pipelines of 1-4 functions with mapped root inputs of rank <= 2 + a seeded "
+                "with a fresh input) + ALL members of the multi-source family (MC_XarrayLabels Mode=sources: the last function "
+                "zips 2-3 sources of one axis - root inputs, mapped arrays 1 and 2 steps from their roots, a rank-2 mapped array "
+                "whole or reduced - in every order of the MapSpec) + seeded random pipelines of 1-4 functions with mapped root inputs of rank <= 2 + a seeded "
                 "sample of universe cases mapped twice into the same run folder with renamed input values (second run judged "
                 "against its own inputs); "
                 "non-trivial = the dataset has at least one coordinate and two datasets were compared")
@@ -541,10 +561,15 @@ def run(ctx: Ctx) -> None:
                        "function with a MapSpec (XarrayLabels!Supported)"]
     if quick:
         # quick: the half of the size-2 universe selected by the seed (MC_MapDenote's Shard/NShards), one storage per case
-        cases = export_universe(ctx, minsize=2, maxsize=2, rich=False, nshards=2, par=1, only=ctx.seed % 2)
+        # + the whole multi-source family (pairs from all 7 sources, triples from 5), whatever the seed
+        with ThreadPoolExecutor(max_workers=2) as ex:
+            fut = ex.submit(export_sources, ctx, minsize=2, maxsize=2, rich=False)
+            cases = export_universe(ctx, minsize=2, maxsize=2, rich=False, nshards=2, par=1, only=ctx.seed % 2)
+            sources = fut.result()
         jobs = jobs_for(cases, lambda k: [("dict", "file_array")[k % 2]], lambda k: [("ndarray", "list")[(k // 2) % 2]], keep=40,
                         every_single=False)
-        ctx.extra["universe"] = f"MC_XarrayLabels: Rich=FALSE sizes 2..2, shard {ctx.seed % 2} of 2"
+        ctx.extra["universe"] = (f"MC_XarrayLabels: Rich=FALSE sizes 2..2, shard {ctx.seed % 2} of 2 + multi-source family "
+                                 "(Rich=FALSE, sizes 2..2, every order)")
     else:
         # thorough: A. the rich universe, every axis of size 2; B. one eighth (selected by the seed) of the basic universe
         # with all mixes of sizes 1..2 and C. the basic universe with size 3; views as in quick (full dataset on/off + one
@@ -557,11 +582,19 @@ def run(ctx: Ctx) -> None:
         more += export_universe(ctx, minsize=3, maxsize=3, rich=False, nshards=2, par=2)
         jobs += jobs_for(more, lambda k: [("file_array", "dict")[k % 2]], lambda k: [("list", "ndarray")[(k // 2) % 2]],
                          every_single=False)
-        for n, j in enumerate(jobs):
-            j["k"] = n
         cases += more
+        sources = export_sources(ctx, minsize=1, maxsize=2, rich=True)
         ctx.extra["universe"] = (f"MC_XarrayLabels: Rich=TRUE sizes 2..2 (all shards) + Rich=FALSE sizes 1..2 shard {ctx.seed % 8} of 8 "
-                                 "+ Rich=FALSE sizes 3..3 (all shards); SameUniverse checked for Rich=FALSE sizes 1..2")
+                                 "+ Rich=FALSE sizes 3..3 (all shards) + multi-source family (Rich=TRUE, sizes 1..2, every order); "
+                                 "SameUniverse checked for Rich=FALSE sizes 1..2")
+    # the multi-source family: storage / container kind alternate with the position of the case, so that the orders of one
+    # choice of sources (neighbours in no particular order) are spread over both
+    jobs += jobs_for(sources, lambda k: [("dict", "file_array")[k % 2]], lambda k: [("list", "ndarray")[(k // 2) % 2]],
+                     every_single=False)
+    for n, j in enumerate(jobs):
+        j["k"] = n
+    cases += sources
+    ctx.extra["multi_source_cases"] = len(sources)
     for c in cases:
         if c["order"] != sorted(c["order"]):
             raise MachineryError("universe name order is not alphabetical")
